@@ -35,7 +35,7 @@ type c10Char struct {
 }
 
 // string values for the string-valued characteristic: text that looks like the protocol lines around it
-var c10Strings = []string{"", "on", "HTTP/1.0 200 OK", "via HTTP/1.0 proxy HTTP/1.0", "EVENT/1.0", "a\r\n\r\nb", "Content-Length: 0"}
+var c10Strings = []string{"", "on", "HTTP/1.0 200 OK", "via HTTP/1.0 proxy HTTP/1.0", "EVENT/1.0", "a\r\n\r\nb", "Content-Length: 0", "e\u0301 \u212b"}
 
 func (k *c10Char) goValue(v int) interface{} {
 	if k.isBool {
